@@ -10,6 +10,7 @@ CONSTANTS
   CPUs,         \* cpuset values are SUBSET CPUs
   LimitVals,    \* limit values, e.g. {1, 2, 3, 99}
   Kinds,        \* subset of {"cpuset", "limit"}
+  Algos,        \* subset of {"leveled", "suppress"}
   CacheMode     \* "cold": no entry | "coldwarm": none or all files remembered | "subsets": any subset of files remembered
 
 MaxDepth == 3
@@ -31,9 +32,11 @@ CacheStarts(p, k, o) ==
     [] CacheMode = "subsets"  -> {remembered(S) : S \in SUBSET (1..Len(p))}
 
 MCInit ==
-  \E p \in AllTrees, k \in Kinds :
+  \E p \in AllTrees, k \in Kinds, a \in Algos :
     \E o \in ValidAssign(p, k) :
       \E c \in CacheStarts(p, k, o) :
+        /\ a = "suppress" => k = "cpuset"
+        /\ algo = a
         /\ par = p /\ kind = k
         /\ val = o /\ old = o /\ target = o /\ written = {} /\ phase = "idle"
         /\ cache = c /\ pc = <<"idle">> /\ rewrites = 0
@@ -44,6 +47,8 @@ MCNext ==
           \E e \in (IF rewrites = 0 THEN {{}} ELSE SUBSET Nodes) : IBegin(t, e)
   \/ IMerge
   \/ IExact
+  \/ SWiden
+  \/ SNarrow
   \/ IDone
 
 MCSpec == MCInit /\ [][MCNext]_vars
